@@ -98,7 +98,7 @@ impl DecisionEvaluator {
     let variable = Variable { name, type_ref: None };
     self.evaluators.insert(
       decision_id.to_owned(),
-      (variable, Box::new(|_: &FeelContext, _: &ModelEvaluator, _: &mut FeelContext| panic!("verification hook: failing decision"))),
+      (variable, Box::new(|_: &FeelContext, _: &FeelContext, _: &ModelEvaluator, _: &mut FeelContext| panic!("verification hook: failing decision"))),
     );
   }
 }
